@@ -158,6 +158,15 @@ def gen_api_case(rng):
       ops.append({'op': 'bind', 'scope': 'a', 'sel': consumer['_selector'], 'arg': rng.choice(cls), 'val': ref2,
                   '_form': 'text', 'block': False})
       ops.append({'op': 'config'})
+  # constants are addressed by dotted suffix too, through %name and through query_parameter
+  if rng.random() < 0.5:
+    cnames = rng.sample(['pkg.optim.LR', 'pkg.sched.LR', 'other.WD', 'WD2', 'pkg.optim.deep.EPS'], rng.randint(1, 4))
+    for i, cn in enumerate(cnames):
+      ops.append({'op': 'constant', 'name': cn, 'nameValid': True, 'val': {'o': 300 + i}})
+    for _ in range(rng.randint(2, 5)):
+      cn = rng.choice(cnames)
+      parts = cn.split('.')
+      ops.append({'op': 'macrolookup', 'name': '.'.join(parts[-rng.randint(1, len(parts)):])})
   # finalize hooks: the same or different parameters under different spellings
   if rng.random() < 0.7:
     reg = rng.choice(regs)
